@@ -353,6 +353,19 @@ func replaceEntities(b []byte, i int, entitiesMap map[string][]byte, revEntities
 			}
 		}
 
+		if 0 < len(r) {
+			// check that the replacement does not continue something in front that could then become an entity, such as &#x&#x41;
+			if c := r[0]; c >= '0' && c <= '9' || c >= 'a' && c <= 'z' || c >= 'A' && c <= 'Z' || c == '#' || c == ';' {
+				for k := i - 1; 0 <= k && i-k <= MaxEntityLength+2; k-- {
+					if b[k] == '&' {
+						return b, j
+					} else if !(b[k] >= '0' && b[k] <= '9' || b[k] >= 'a' && b[k] <= 'z' || b[k] >= 'A' && b[k] <= 'Z' || b[k] == '#') {
+						break
+					}
+				}
+			}
+		}
+
 		copy(b[i:], r)
 		copy(b[i+len(r):], b[j+1:])
 		b = b[:len(b)-n+len(r)]
